@@ -160,7 +160,7 @@ def subj_selector(b, kind, pattern):
             fitB["y"] = yb  # without y -> with y
         elif r < 0.75:
             fitA["y"], fitB["y"] = ya, yb
-    reads = [("get_support", {}), ("get_support", {"indices": True, "ordered": True})]
+    reads = [("get_support", {}), ("get_support", {"indices": True, "ordered": True}), ("get_support", {"indices": True})]
     if axis == 1:
         reads.append(("transform", {"X": "$LASTX"}))
     if fam in ("fps", "pcovfps", "voronoi"):
@@ -189,7 +189,11 @@ def subj_dch(b, kind, pattern):
         pass
     fitA = {"X": b.ref(XA, "data"), "y": b.ref(b.y_of(XA, noise=1.0), "target")}
     fitB = {"X": b.ref(XB, "data"), "y": b.ref(b.y_of(XB, noise=1.0), "target")}
-    reads = [("score_samples", {"X": "$LASTX", "y": "$LASTY"}), ("score_feature_matrix", {"X": "$LASTX"})]
+    XN = b.X(rng.randint(2, 6), m, ["uniform"])
+    reads = [("score_samples", {"X": "$LASTX", "y": "$LASTY"}), ("score_feature_matrix", {"X": "$LASTX"}),
+             ("score_samples", {"X": b.ref(XN, "data"), "y": b.ref(b.y_of(XN, noise=1.0), "target")})]
+    if rng.random() < 0.2:
+        p["tolerance"] = rng.choice([1e-10, 1e-8])
     return dict(params=p, fitA=fitA, fitB=fitB, reads=reads, envs=["rng"], repeatable=True, fit_transform=False)
 
 
@@ -221,7 +225,11 @@ def subj_pcovr(b, kind, pattern):
         fitA["W"] = b.ref({"kind": "gauss", "shape": [XA["shape"][1], pdim], "seed": _seed(rng)}, "weights_matrix")
         fitB["W"] = b.ref({"kind": "gauss", "shape": [XB["shape"][1], pdim], "seed": _seed(rng)}, "weights_matrix")
     T = b.ref({"kind": "gauss", "shape": [5, p["n_components"]], "seed": _seed(rng)}, "latent")
-    reads = [("transform", {"X": "$LASTX"}), ("predict", {"X": "$LASTX"}), ("score", {"X": "$LASTX", "Y": "$LASTY"}), ("inverse_transform", {"T": T})]
+    reads = [("transform", {"X": "$LASTX"}), ("predict", {"X": "$LASTX"}), ("score", {"X": "$LASTX", "Y": "$LASTY"}), ("inverse_transform", {"T": T}), ("predict", {"T": T})]
+    if rng.random() < 0.2:
+        p["tol"] = rng.choice([1e-10, 1e-14])
+    if solver == "randomized" and rng.random() < 0.5:
+        p["iterated_power"] = rng.choice([2, 5])
     rep = not (solver in ("arpack", "randomized") and p.get("random_state") is None)
     return dict(params=p, fitA=fitA, fitB=fitB, reads=reads, envs=["rng_always"], repeatable=rep, fit_transform=True, ykey="Y")
 
@@ -268,6 +276,11 @@ def subj_kpcovr(b, kind, pattern):
     fitA = {"X": b.ref(XA, "data"), "Y": b.ref(b.y_of(XA, pdim, squeeze=False), "target")}
     fitB = {"X": b.ref(XB, "data"), "Y": b.ref(b.y_of(XB, pdim, squeeze=False), "target")}
     reads = [("transform", {"X": "$LASTX"}), ("predict", {"X": "$LASTX"}), ("score", {"X": "$LASTX", "Y": "$LASTY"})]
+    if p.get("fit_inverse_transform"):
+        reads.append(("inverse_transform", {"T": b.ref({"kind": "gauss", "shape": [4, p["n_components"]], "seed": _seed(rng)}, "latent")}))
+    XN = b.X(rng.randint(1, 5), XB["shape"][1], ["gauss"])
+    reads.append(("transform", {"X": b.ref(XN, "data")}))
+    reads.append(("predict", {"X": b.ref(XN, "data")}))
     rep = not (solver in ("arpack", "randomized") and p.get("random_state") is None)
     return dict(params=p, fitA=fitA, fitB=fitB, reads=reads, envs=["rng_always"], repeatable=rep, fit_transform=False, ykey="Y")
 
@@ -280,6 +293,8 @@ def subj_scaler(b, kind, pattern):
     p = {"with_mean": rng.random() < 0.7, "with_std": rng.random() < 0.7, "column_wise": rng.random() < 0.5}
     if rng.random() < 0.3:
         p["copy"] = rng.random() < 0.5
+    if rng.random() < 0.15:
+        p["rtol"], p["atol"] = rng.choice([0, 1e-8]), rng.choice([1e-12, 1e-9])
     fitA, fitB = {"X": b.ref(XA, "data")}, {"X": b.ref(XB, "data")}
     r = rng.random()
     if r < 0.35:
